@@ -4,7 +4,7 @@
 Require Extraction.
 Require Import ExtrOcamlBasic.
 From MOC.Base Require Import RangeSet.
-From MOC.Model Require Import Qty Ops1D Query Expr Build Repr Serial ST STSerial TextValid Store MocSet Freq.
+From MOC.Model Require Import Qty Ops1D Query Expr Build Repr Serial ST STSerial TextValid Store MocSet Freq SetQuery.
 Extraction Language OCaml.
 Extraction "moc_model.ml"
   RangeSet.covb RangeSet.canonb RangeSet.canon_of
@@ -22,4 +22,5 @@ Extraction "moc_model.ml"
   TextValid.text_accept TextValid.text_depth TextValid.text_decode
   Store.exec Store.run Store.empty_slab
   MocSet.exec MocSet.extract MocSet.n_of_n128
-  Freq.freq2hash Freq.hash2freq Freq.cell_of Freq.moc_of_values Freq.moc_of_ranges Freq.from_u64_idx.
+  Freq.freq2hash Freq.hash2freq Freq.cell_of Freq.moc_of_values Freq.moc_of_ranges Freq.from_u64_idx
+  SetQuery.query SetQuery.query_pos SetQuery.union_query SetQuery.union_pos SetQuery.union_ids SetQuery.matches_floor.
